@@ -95,8 +95,8 @@ Inductive pty :=
 
 Definition headers := list (bytes * gval).     (* Dict as an association list, in written order *)
 
-Definition s_simple_key : bytes := bs "simple"%string.
-Definition s_timeout : bytes := bs "timeout"%string.
+Definition s_simple_key : bytes := Eval compute in bs "simple"%string.
+Definition s_timeout : bytes := Eval compute in bs "timeout"%string.
 
 Fixpoint hfind (k : bytes) (h : headers) : option gval :=
   match h with
@@ -115,17 +115,18 @@ Fixpoint hflat (h : headers) : list gval :=
   match h with [] => [] | (k, v) :: r => GString k :: v :: hflat r end.
 
 (* strconv.ParseBool *)
+Definition true_texts : list bytes :=
+  Eval compute in map bs ["1"; "t"; "T"; "TRUE"; "true"; "True"]%string.
+Definition false_texts : list bytes :=
+  Eval compute in map bs ["0"; "f"; "F"; "FALSE"; "false"; "False"]%string.
+
 Definition parse_bool (s : bytes) : option bool :=
-  if bytes_eqb s (bs "1"%string) || bytes_eqb s (bs "t"%string)
-     || bytes_eqb s (bs "T"%string) || bytes_eqb s (bs "TRUE"%string)
-     || bytes_eqb s (bs "true"%string) || bytes_eqb s (bs "True"%string) then Some true
-  else if bytes_eqb s (bs "0"%string) || bytes_eqb s (bs "f"%string)
-     || bytes_eqb s (bs "F"%string) || bytes_eqb s (bs "FALSE"%string)
-     || bytes_eqb s (bs "false"%string) || bytes_eqb s (bs "False"%string) then Some false
+  if existsb (bytes_eqb s) true_texts then Some true
+  else if existsb (bytes_eqb s) false_texts then Some false
   else None.
 
-Definition zero_text (txt : bytes) : bool :=
-  bytes_eqb txt (bs "0"%string) || bytes_eqb txt (bs "-0"%string).
+Definition zero_texts : list bytes := Eval compute in map bs ["0"; "-0"]%string.
+Definition zero_text (txt : bytes) : bool := existsb (bytes_eqb txt) zero_texts.
 
 (* dict.go getBool(d, key) with no default *)
 Definition get_bool (k : bytes) (h : headers) : bool :=
@@ -160,7 +161,7 @@ Fixpoint rfind (k : bytes) (r : registry) : option method :=
   | (k', m) :: t => if bytes_eqb k k' then Some m else rfind k t
   end.
 
-Definition star : bytes := bs "*"%string.
+Definition star : bytes := Eval compute in bs "*"%string.
 
 Section Lookup.
 Variable lower : bytes -> bytes.       (* strings.ToLower *)
@@ -207,8 +208,9 @@ Definition error_text (debug : bool) (e : errv) : bytes :=
   | EPanicE m st => if debug then m ++ crlf ++ st else m        (* pe.String() = "%v\r\n%s" *)
   end.
 
-Definition cant_find (name : bytes) : bytes :=
-  bs "Can't find this method "%string ++ name ++ bs "()."%string.
+Definition cant_find_pre : bytes := Eval compute in bs "Can't find this method "%string.
+Definition cant_find_post : bytes := Eval compute in bs "()."%string.
+Definition cant_find (name : bytes) : bytes := cant_find_pre ++ name ++ cant_find_post.
 
 (* ------------------------------------------------------------------ the hprose codec *)
 
@@ -299,6 +301,7 @@ Record request := {
 
 Inductive sdec :=
 | SDOk (r : request)
+| SDDirty (r : request)                      (* returned WITHOUT error although decoder.Error is set (see service_decode_items) *)
 | SDNoMethod (h : headers) (name : bytes)    (* errors.New("Can't find this method " + name + "().") *)
 | SDDecodeError                             (* decoder.Error != nil *)
 | SDInvalid                                 (* InvalidRequestError / unparsable bytes *)
@@ -356,12 +359,27 @@ Definition service_decode_call (o : sopts) (svc : registry) (h : headers) (tr0 :
   | _ => (SDInvalid, tr0)
   end.
 
-(* serviceCodec.Decode on the parsed request; returns the reader trace too *)
+(* does decodeArguments reach its `return args, decoder.Error` (an argument list follows the name)? *)
+Definition has_arg_list (rest : list item) : bool :=
+  match rest with
+  | ITag _ :: IVal _ :: IVal (WList _) :: _ => true
+  | _ => false
+  end.
+
+(* serviceCodec.Decode on the parsed request; returns the reader trace too.
+   A failure while decoding the header map only sets the sticky decoder.Error and decoding goes on with
+   whatever was filled in (modelled as no headers).  decoder.Error is looked at in exactly one place, the
+   last line of decodeArguments; when the call has no argument list decodeArguments returns (nil, nil)
+   before that, and Decode reports success. *)
 Definition service_decode_items (o : sopts) (svc : registry) (m : list item) : sdec * list dop :=
   let '(hres, rest, tr0) := read_headers (s_dec o) m in
   match hres with
-  | None => (SDDecodeError, tr0)
   | Some h => service_decode_call o svc h tr0 rest
+  | None =>
+      match service_decode_call o svc [] tr0 rest with
+      | (SDOk r, tr) => if has_arg_list rest then (SDDecodeError, tr) else (SDDirty r, tr)
+      | other => other
+      end
   end.
 
 Definition service_decode (o : sopts) (svc : registry) (req : bytes) : sdec * list dop :=
@@ -564,11 +582,11 @@ Definition code_parse_error : Z := (-32700)%Z.
 Definition code_invalid_request : Z := (-32600)%Z.
 Definition code_method_not_found : Z := (-32601)%Z.
 Definition code_invalid_params : Z := (-32602)%Z.
-Definition msg_parse_error : bytes := bs "Parse error"%string.
-Definition msg_invalid_request : bytes := bs "Invalid Request"%string.
-Definition msg_method_not_found : bytes := bs "Method not found"%string.
-Definition msg_invalid_params : bytes := bs "Invalid params"%string.
-Definition jsonrpc_prefix : bytes := bs "hprose/rpc/codec/jsonrpc: "%string.
+Definition msg_parse_error : bytes := Eval compute in bs "Parse error"%string.
+Definition msg_invalid_request : bytes := Eval compute in bs "Invalid Request"%string.
+Definition msg_method_not_found : bytes := Eval compute in bs "Method not found"%string.
+Definition msg_invalid_params : bytes := Eval compute in bs "Invalid params"%string.
+Definition jsonrpc_prefix : bytes := Eval compute in bs "hprose/rpc/codec/jsonrpc: "%string.
 
 (* errors as the JSON-RPC service codec distinguishes them *)
 Inductive jerrv :=
